@@ -224,6 +224,11 @@ pub fn add_noise(rg: &mut Rg, e: &mut EnumSpec) {
         let slot = rg.below(6) as u8;
         e.noise.push((slot, t.to_string()));
     }
+    // the whole item produced by a macro_rules! macro that receives the enum's NAME from its caller (tokens of the
+    // name then carry the caller's hygiene context, everything else the macro's)
+    if (e.macro_args.is_empty() && rg.chance(1, 8)) || (!e.macro_args.is_empty() && rg.chance(1, 3)) {
+        e.macro_args.push(("n".to_string(), "ident".to_string(), String::new()));
+    }
     // a local item shadowing a prelude name: generated code must not depend on what `Default` means here
     if rg.chance(1, 5) {
         e.decoys.push("#[allow(dead_code)] pub trait Default { fn default() -> Self; }".to_string());
@@ -241,11 +246,14 @@ pub const FRAGMENTS: &[(&str, i128)] = &[("1 + 2", 3), ("6 - 2", 4), ("1 | 4", 5
 /// a discriminant written with the fragment `$a` (value `a`): (text, value)
 pub fn fragment_disc(rg: &mut Rg, a: i128, signed: bool) -> (String, i128) {
     let k = rg.range(2, 6) as i128;
-    match rg.below(if signed { 5 } else { 4 }) {
+    match rg.below(if signed { 7 } else { 6 }) {
         0 => (format!("$a * {}", k), a * k),
         1 => (format!("{} * $a", k), a * k),
         2 => ("$a".to_string(), a),
         3 => (format!("{} - $a % 2", 20 + k), 20 + k - a % 2),
+        // the fragment inside a visible group, next to a tighter-binding operator
+        4 => (format!("($a * {}) + 1", k), a * k + 1),
+        5 => (format!("({} + $a * 2) * 2", k), (k + a * 2) * 2),
         _ => ("-$a".to_string(), -a),
     }
 }
@@ -268,13 +276,18 @@ pub fn with_ident_pair<'a>(rg: &mut Rg, idents: &mut Vec<&'a str>) {
 /// harmless non-strum attributes in front of a variant's strum attributes
 pub fn variant_noise(rg: &mut Rg, e: &mut EnumSpec, docs_ok: bool) {
     let pool: Vec<&str> = if docs_ok {
-        vec!["#[allow(dead_code)]", "#[doc(hidden)]", "/// a variant doc line", "#[allow(non_camel_case_types)]"]
+        vec!["#[allow(dead_code)]", "#[doc(hidden)]", "/// a variant doc line", "#[allow(non_camel_case_types)]", "#[doc(alias = \"an-alias-longer-than-most-names\")]", "#[deprecated]"]
     } else {
-        vec!["#[allow(dead_code)]", "#[doc(hidden)]", "#[allow(non_camel_case_types)]"]
+        vec!["#[allow(dead_code)]", "#[doc(hidden)]", "#[allow(non_camel_case_types)]", "#[doc(alias = \"an-alias-longer-than-most-names\")]", "#[deprecated]"]
     };
     for v in e.variants.iter_mut() {
         if rg.chance(1, 4) {
-            v.noise.push(rg.pick(&pool).to_string());
+            let t = rg.pick(&pool).to_string();
+            // (some attributes may appear only once on an item)
+            if v.noise.contains(&t) {
+                continue;
+            }
+            v.noise.push(t);
             // anywhere among the variant's #[strum(..)] attributes
             v.noise_at = rg.range(0, v.groups.len());
         }
@@ -331,9 +344,10 @@ pub fn irrelevant_enum_attrs(rg: &mut Rg, e: &mut EnumSpec, names: bool, vary_vi
 pub fn disabled_attrs(rg: &mut Rg, tag: usize) -> Vec<Vec<VAttr>> {
     let mut attrs = vec![VAttr::Disabled];
     if rg.chance(1, 2) {
-        attrs.push(match rg.below(3) {
+        attrs.push(match rg.below(4) {
             0 => VAttr::Serialize(format!("dis-{}", tag)),
             1 => VAttr::Message(format!("disabled variant {}", tag)),
+            2 => VAttr::ToString(format!("disabled-{}", tag)),
             _ => VAttr::Props(vec![("k".to_string(), PropVal::Int(tag as i64, false))]),
         });
     }
@@ -539,6 +553,9 @@ pub fn gen_string(rg: &mut Rg, cfg: &GenCfg) -> EnumSpec {
     }
     if cfg.phf {
         eattrs.push(EAttr::UsePhf);
+    } else if cfg.property != "C16" && (e.type_param || e.lifetime || e.const_param) && e.derives("EnumString") && rg.chance(1, 6) {
+        // on a generic enum `use_phf` falls back to the ordinary match (F9): a neutral attribute there
+        eattrs.push(EAttr::UsePhf);
     }
     e.groups = layout(rg, eattrs, false);
 
@@ -601,7 +618,7 @@ pub fn gen_string(rg: &mut Rg, cfg: &GenCfg) -> EnumSpec {
             v.fields = vec![FieldSpec { name: if v.kind == Kind::Named { Some("inner".into()) } else { None }, ty, default_with: false }];
             attrs.push(VAttr::Default);
             // both markers on one variant say the same thing twice for Display; the parser keeps its catch-all
-            if cfg.allow_transparent && !has_const_into && rg.chance(1, 6) && e.derives("Display") && !e.derives("AsRefStr") && !e.derives("IntoStaticStr") {
+            if cfg.allow_transparent && !has_const_into && rg.chance(1, 5) && e.derives("Display") && !e.derives("IntoStaticStr") && (!e.derives("AsRefStr") || matches!(ty, FieldTy::Str | FieldTy::BoxStr)) {
                 attrs.push(VAttr::Transparent);
             }
         } else if want_transparent {
@@ -694,6 +711,11 @@ pub fn gen_string(rg: &mut Rg, cfg: &GenCfg) -> EnumSpec {
                         lits.push(sib);
                     }
                 }
+                // a parser-only enum may spell a variant with braces (tokens like `{` or `${`): they are no placeholders there
+                if e.derives.iter().all(|d| d == "EnumString") && !cfg.plain_literals && rg.chance(1, 8) {
+                    let last = lits.len() - 1;
+                    lits[last] = format!("{}{}", rg.pick(&["{", "${", "a{b}", "}{", "{0}"]), "x".repeat(lits[last].len()));
+                }
                 // an explicit name that happens to be the identifier itself is still explicit: never re-cased
                 if lits.len() == 1 && !cfg.plain_literals && rg.chance(1, 10) {
                     lits[0] = v.ident.trim_start_matches("r#").to_string();
@@ -738,6 +760,29 @@ pub fn gen_string(rg: &mut Rg, cfg: &GenCfg) -> EnumSpec {
         v.groups = vec![vec![VAttr::ToString(lit.join(*rg.pick(&[" ", ",", "-", ""])))]];
         let at = rg.range(0, e.variants.len());
         e.variants.insert(at, v);
+    }
+    // two CASE-SENSITIVE variants spelled alike up to case (`mb` / `MB`), declared after a case-insensitive one:
+    // each must keep parsing to itself (a flag that leaks from one variant to the following ones merges them)
+    if e.derives("EnumString") && cfg.allow_ci && !cfg.plain_literals && rg.chance(1, 6) {
+        let cand: Vec<usize> = (1..e.variants.len()).filter(|&i| !e.variants[i].is_default() && !e.variants[i].transparent()).collect();
+        if cand.len() >= 2 && !e.variants[0].is_default() {
+            let i = cand[rg.below(cand.len() - 1)];
+            let j = *cand.iter().find(|&&x| x > i).unwrap();
+            let base = format!("{}{}", rg.pick(&["mb", "kib", "rgb", "id"]), i);
+            for (at, name) in [(i, base.clone()), (j, base.to_ascii_uppercase())] {
+                let v = &mut e.variants[at];
+                for g in v.groups.iter_mut() {
+                    g.retain(|a| !matches!(a, VAttr::Serialize(_) | VAttr::ToString(_) | VAttr::Ci(_)));
+                }
+                v.groups.retain(|g| !g.is_empty());
+                v.groups.push(vec![VAttr::Serialize(name), VAttr::Ci(Some(false))]);
+            }
+            // some earlier variant carries the flag
+            let k = rg.below(i);
+            if !e.variants[k].is_default() && !e.variants[k].attrs().any(|a| matches!(a, VAttr::Ci(_))) {
+                e.variants[k].groups.push(vec![VAttr::Ci(*rg.pick(&[None, Some(true)]))]);
+            }
+        }
     }
     // a case-sensitive and a case-insensitive variant whose spellings differ only in case, in either order
     if cfg.mixed_case_overlap && rg.chance(1, 3) {
@@ -884,6 +929,9 @@ pub fn gen_iter(rg: &mut Rg, cfg: &IterCfg) -> EnumSpec {
         let mut attrs = Vec::new();
         if (mask >> vi) & 1 == 1 {
             attrs.push(VAttr::Disabled);
+            if kind != Kind::Unit && nf == 1 && rg.chance(1, 4) {
+                attrs.push(VAttr::Transparent);
+            }
             if !cfg.naming && rg.chance(1, 2) {
                 attrs.push(match rg.below(2) {
                     0 => VAttr::Serialize(format!("dis-{}", vi)),
@@ -893,6 +941,10 @@ pub fn gen_iter(rg: &mut Rg, cfg: &IterCfg) -> EnumSpec {
         }
         if (mask >> vi) & 1 == 0 {
             attrs.extend(irrelevant_attrs(rg, vi));
+            // `transparent` is a print-side attribute
+            if kind != Kind::Unit && nf == 1 && rg.chance(1, 8) {
+                attrs.push(VAttr::Transparent);
+            }
             // default_with belongs to EnumString: the iterator builds payloads with Default all the same
             if kind == Kind::Tuple && nf == 1 && v.fields[0].ty.dw().is_some() && rg.chance(1, 5) {
                 attrs.push(VAttr::DefaultWith);
@@ -1047,10 +1099,13 @@ pub fn gen_repr(rg: &mut Rg, repr: Option<&str>, derives: &[String]) -> EnumSpec
                     _ => implicit,                                            // explicit but equal to the implicit value
                 };
                 val = cand;
-                let text = match rg.below(5) {
+                let text = match rg.below(6) {
                     0 if val >= 0 => format!("{:#x}", val),
                     1 if val >= 0 && val.count_ones() == 1 => format!("1 << {}", val.trailing_zeros()),
                     2 if val >= 3 && val - 3 <= hi => format!("{} + 3", val - 3),
+                    // an expression that STARTS with a parenthesised part and goes on after it
+                    5 if val & 16 != 0 && val >= 16 && val < 4096 => format!("(1 << 4) | {}", val & !16),
+                    5 if val >= 2 && val % 2 == 0 && val <= 2000 => format!("({} + 1) * 2", val / 2 - 1),
                     3 if use_base && val - e.base_const.unwrap() >= 0 && val - e.base_const.unwrap() <= hi.min(1000) => format!("BASE + {}", val - e.base_const.unwrap()),
                     _ => format!("{}", val),
                 };
@@ -1091,6 +1146,12 @@ pub fn gen_repr(rg: &mut Rg, repr: Option<&str>, derives: &[String]) -> EnumSpec
         // `C` next to an integer type is only legal on an enum with fields
         if e.repr.as_deref().map_or(false, |r| r.starts_with("C;")) && e.variants.iter().all(|v| v.fields.is_empty()) {
             continue;
+        }
+        // the same enum may derive EnumDiscriminants as well, and give the discriminant enum a repr of its own
+        // through a pass-through attribute: none of FromRepr's business (from_repr keeps taking usize)
+        if repr.is_none() && !e.variants.is_empty() && rg.chance(1, 8) {
+            e.derives.push("EnumDiscriminants".to_string());
+            e.noise.push((3, "#[strum_discriminants(repr(i64))]".to_string()));
         }
         // BASE must be used if declared (otherwise harmless); fine either way
         return e;
@@ -1567,6 +1628,11 @@ pub fn gen_disc(rg: &mut Rg) -> EnumSpec {
             continue; // rustc: conflicting representation hints on a field-less enum
         }
         e.disc_opts = Some(opts);
+        // a custom parse error declared on the source enum (together with an explicit crate path, in one list) is the
+        // source enum's business: D keeps strum's own error type
+        if rg.chance(1, 6) && e.crate_path().is_none() {
+            e.groups.push(vec![EAttr::Crate("::strum".to_string()), EAttr::ParseErr]);
+        }
         // the source enum may derive std's Default itself: its `#[default]` marker is none of D's business
         if rg.chance(1, 5) {
             let units: Vec<usize> = e.variants.iter().enumerate().filter(|(_, v)| v.kind == Kind::Unit).map(|(i, _)| i).collect();
@@ -1759,7 +1825,11 @@ pub fn plainify(e: &mut EnumSpec) -> bool {
         *e = b;
         false
     };
+    if e.macro_args.iter().all(|(n, k, _)| n == "n" && k == "ident") {
+        e.macro_args.clear();
+    }
     if e.variants.is_empty() || e.variants.len() > 12 || !e.macro_args.is_empty() || e.base_const.is_some() {
+        *e = backup;
         return false;
     }
     if let Some(r) = &e.repr {
@@ -1891,4 +1961,23 @@ pub fn plainify(e: &mut EnumSpec) -> bool {
         return bail(e, backup);
     }
     true
+}
+
+/// A shape enum with more variants than a byte can number (C13)
+pub fn gen_shape_large(rg: &mut Rg, n: usize) -> EnumSpec {
+    let mut e = EnumSpec::new("En");
+    e.derives = vec!["EnumIs".into(), "EnumTryAs".into()];
+    let dis: Vec<usize> = (0..3).map(|_| rg.below(n)).collect();
+    for i in 0..n {
+        let mut v = VariantSpec::unit(&format!("Op{}", i));
+        if i % 97 == 5 {
+            v.kind = Kind::Tuple;
+            v.fields = vec![FieldSpec { name: None, ty: FieldTy::U8, default_with: false }];
+        }
+        if dis.contains(&i) {
+            v.groups = disabled_attrs(rg, i);
+        }
+        e.variants.push(v);
+    }
+    e
 }
